@@ -162,10 +162,61 @@ def check_tree(ctx, tr, rng, k, npat, mon, have_bash):
                              dict(wit, only_wcmatch=only_w[:8], only_bash=only_b[:8], shopt={'globstar': gs, 'dotglob': dg, 'globskipdots': not sd}))
 
 
+# names that end in / contain a line feed, a space or pattern punctuation: a segment pattern is matched against the WHOLE name
+ODD_TREE = [('abc\n', 'f', None), ('abc', 'f', None), ('ab\n', 'f', None), ('x.txt\n', 'f', None), ('x.txt', 'f', None), ('a\n', 'f', None),
+            ('a', 'f', None), ('sub\n', 'd', None), ('sub\n/f', 'f', None), ('sub', 'd', None), ('sub/m.py\n', 'f', None), ('sub/m.py', 'f', None),
+            ('a b', 'd', None), ('a b/c d', 'f', None), ('q\nr', 'd', None), ('q\nr/s', 'f', None), ('sub/deep', 'd', None),
+            ('sub/deep/n.py\n', 'f', None), ('sub/deep/n.py', 'f', None), ('[x]', 'f', None), ('x', 'f', None),
+            # on a POSIX system a backslash is an ordinary character of a name
+            ('x\\', 'f', None), ('b\\', 'f', None), ('b\\.', 'f', None), ('c\\d', 'd', None), ('c\\d/e', 'f', None)]
+
+
+def odd_name_scenarios(ctx):
+    lit = lambda x: tuple(('lit', c) for c in x)  # noqa: E731
+    ST, Q, GS = (('star',),), (('q',),), (('gstar',),)
+    one = lambda c: (('set', False, (('c', c),), '!'),)  # noqa: E731
+    shapes = [[lit('ab') + one('c')], [lit('ab') + Q], [ST + lit('.txt')], [(('grp', '@', (lit('a'), lit('b'))),)], [lit('su') + one('b'), ST + lit('.py')],
+              [GS, ST + lit('.p') + one('y')], [lit('ab') + ST], [ST], [lit('a') + Q + lit('b'), ST], [Q + Q + Q], [GS, Q + lit('.py')], [lit('sub'), ST],
+              [lit('su') + Q, lit('f')], [ST, lit('f')], [lit('q') + Q + lit('r'), lit('s')], [one('['), ST], [lit('x') + ST], [GS, lit('n.p') + one('y')],
+              [(('grp', '+', (lit('a'), lit('b'), lit('c'))),)], [(('grp', '?', (lit('ab'),)),) + lit('c')], [Q + Q + Q + Q], [GS], [lit('sub'), GS, ST + lit('y')],
+              [ST + lit('t')], [Q], [lit('a')], [lit('sub'), lit('m.py')], [lit('b') + ST], [lit('b') + Q], [lit('b') + Q + Q], [lit('c') + Q + lit('d'), ST],
+              [lit('c\\d'), lit('e')], [ST + lit('\\')], [Q + Q]]
+    fsets = [('GLOBSTAR',), ('GLOBSTAR', 'DOTGLOB'), (), ('GLOBSTAR', 'MARK'), ('GLOBSTAR', 'NODIR'), ('GLOBSTAR', 'MATCHBASE'), ('GLOBSTAR', 'IGNORECASE')]
+    idx, todo = 0, []
+    for segs in shapes:
+        for fn in fsets:
+            for trail in (False, True):
+                idx += 1
+                if ctx.mine(idx):
+                    todo.append((segs, fn, trail))
+    if not todo:
+        return
+    with T.Tree(ODD_TREE, 'c05o-') as tr:
+        for segs, fn, trail in todo:
+            toks = gen.join_segments(segs, None, lead=False, trail=trail)
+            text = gen.ser(toks)
+            fn = ['EXTGLOB'] + list(fn)
+            wit = {'tree': tr.spec, 'ast': toks, 'pattern': text, 'flags': fn}
+            with ctx.case(timeout=20, label=('odd-names', text, tuple(fn))):
+                try:
+                    res = G.glob(text, flags=flags_of(fn), root_dir=tr.root)
+                    resb = [os.fsdecode(x) for x in G.glob(os.fsencode(text), flags=flags_of(fn), root_dir=os.fsencode(tr.root))]
+                except Exception as e:  # noqa: BLE001
+                    ctx.disagree(f'glob raised {type(e).__name__}', dict(wit, exception=repr(e)[:200]))
+                    continue
+                exp = compare(ctx, tr, toks, text, fn, res, wit)
+                ctx.count('odd_name_scenarios')
+                if sorted(resb) != sorted(res):
+                    ctx.disagree('glob with bytes arguments returns other paths than with str arguments', dict(wit, str_result=res[:12], bytes_result=resb[:12]))
+                if exp:
+                    ctx.mark_nontrivial(('odd', text, tuple(fn)))
+
+
 def run(ctx):
     quick = ctx.quick
     mon = FSMonitor.get()
     have_bash = bashref.available()
+    odd_name_scenarios(ctx)
     if not have_bash:
         ctx.note('Bash >= 5.2 not available: the Bash sub-check is skipped')
     k = 0
